@@ -130,32 +130,31 @@ Qed.
 
 Lemma closed_set_now t s : closed (set_now t s) = closed s. Proof. reflexivity. Qed.
 
+Lemma fire_at_set_now t s : fire_at (set_now t s) = fire_at s.
+Proof. reflexivity. Qed.
+
+Lemma inv_set_now s t :
+  inv s -> closed s = None -> now s <= t -> (forall f, fire_at s = Some f -> t < f) -> inv (set_now t s).
+Proof.
+  intros Hi Hc Ht Hlt _. destruct (Hi Hc) as (He & Hf & _ & Hpp & Hhd).
+  rewrite fire_at_set_now. change (entered (set_now t s)) with (entered s).
+  change (ph (set_now t s)) with (ph s). change (rd (set_now t s)) with (rd s).
+  change (now (set_now t s)) with t.
+  repeat split; try assumption. lia.
+Qed.
+
 Lemma inv_tick d s : inv s -> inv (tick d s).
 Proof.
   intros Hi. unfold tick. destruct (d <? 0) eqn:Ed; [assumption|]. apply Z.ltb_ge in Ed.
   destruct (closed s) eqn:Hc.
   - intros H. cbn in H. congruence.
-  - destruct (Hi eq_refl) as (He & Hf & Hlt & Hpp & Hhd).
-    assert (Hgen : inv (set_now (now s + d) s) \/ True) by (right; exact I).
+  - destruct (Hi Hc) as (He & Hf & Hlt & Hpp & Hhd).
     destruct (fire_at s) as [f|] eqn:Ef.
     + destruct (f <=? now s + d) eqn:Efd.
       * intros H. cbn in H. discriminate.
-      * apply Z.leb_gt in Efd. intros _.
-        unfold set_now; cbn [closed entered now fire_at ph rd ctxd ppd].
-        change (match ph s with
-                | PPHdr => omin (ppd s) (omin (ctxd s) (rd s))
-                | PLTls | PMTls => omin (ctxd s) (rd s)
-                | PIdle | PHead | PMPeek => rd s
-                | PUp | PTunnel => None end) with (fire_at s).
-        rewrite Ef. repeat split; try lia; try assumption.
-        intros f' Hf'. inversion Hf'; subst. lia.
-    + intros _. unfold set_now; cbn [closed entered now fire_at ph rd ctxd ppd].
-      change (match ph s with
-              | PPHdr => omin (ppd s) (omin (ctxd s) (rd s))
-              | PLTls | PMTls => omin (ctxd s) (rd s)
-              | PIdle | PHead | PMPeek => rd s
-              | PUp | PTunnel => None end) with (fire_at s).
-      rewrite Ef. repeat split; try lia; try assumption. discriminate.
+      * apply Z.leb_gt in Efd. apply inv_set_now; try assumption; try lia.
+        intros f' Hf'. rewrite Ef in Hf'. inversion Hf'; subst. lia.
+    + apply inv_set_now; try assumption; try lia. intros f' Hf'. rewrite Ef in Hf'. discriminate.
 Qed.
 
 Lemma inv_closed s : closed s <> None -> inv s.
@@ -200,14 +199,17 @@ Proof.
   apply Z.ltb_ge in Ed. rewrite Hc. cbn. repeat split; try assumption; lia.
 Qed.
 
+Lemma run_cons s e r : run c s (e :: r) = run c (step c s e) r.
+Proof. reflexivity. Qed.
+
 Lemma run_closed evs : forall s t,
   closed s = Some t ->
   closed (run c s evs) = Some t /\ ph (run c s evs) = ph s /\ entered (run c s evs) = entered s /\
   now s <= now (run c s evs).
 Proof.
-  induction evs as [|e r IH]; intros s t Hc; cbn.
-  - repeat split; try assumption; lia.
-  - destruct (step_closed s e t Hc) as (H1 & H2 & H3 & H4).
+  induction evs as [|e r IH]; intros s t Hc.
+  - cbn. repeat split; try assumption; lia.
+  - rewrite run_cons. destruct (step_closed s e t Hc) as (H1 & H2 & H3 & H4).
     destruct (IH _ _ H1) as (G1 & G2 & G3 & G4).
     repeat split; try congruence; lia.
 Qed.
@@ -233,7 +235,8 @@ Proof.
            repeat split; try lia. f_equal. lia.
         -- cbn. repeat split; try lia. left; assumption.
       * cbn. repeat split; try lia. left; assumption.
-  - cbn [step]. rewrite Hc. destruct (ph s); try discriminate; cbn; repeat split; try lia; left; assumption.
+  - cbn [step]. rewrite Hc. destruct (ph s) eqn:Hp; try discriminate;
+      cbn; repeat split; try lia; try assumption; left; assumption.
 Qed.
 
 (* ---- a client that makes no progress, for any number of steps ---- *)
@@ -244,19 +247,17 @@ Lemma stall_run evs : forall s,
   (closed s' = None \/
    exists L, limit c (ph s) = Some L /\ closed s' = Some (entered s + L) /\ entered s + L <= now s').
 Proof.
-  induction evs as [|e r IH]; intros s Hi Hc Hs; cbn [run fold_left].
+  induction evs as [|e r IH]; intros s Hi Hc Hs; [cbn [run fold_left]|rewrite run_cons].
   - repeat split; try lia. left; assumption.
   - cbn [forallb] in Hs. apply andb_true_iff in Hs as [Hs1 Hs2].
     destruct (stall_step s e Hi Hc Hs1) as (Hp & He & Hn & Hcl).
     destruct Hcl as [Hcl | (L & HL & Hcl & Hle)].
     + rewrite <- Hp in Hs2.
       destruct (IH (step c s e) (inv_step s e Hi) Hcl Hs2) as (G1 & G2 & G3 & G4).
-      fold (run c (step c s e) r).
       repeat split; try congruence; try lia.
       destruct G4 as [G4 | (L & HL & G4 & G5)]; [left; assumption|right].
       exists L. rewrite <- Hp, <- He. repeat split; assumption.
     + destruct (run_closed r _ _ Hcl) as (G1 & G2 & G3 & G4).
-      fold (run c (step c s e) r).
       repeat split; try congruence; try lia.
       right. exists L. repeat split; try assumption. lia.
 Qed.
@@ -295,7 +296,7 @@ Lemma no_limit_no_close pre evs :
   closed (run c s evs) = None.
 Proof.
   intros s Hc HL Hs. destruct (closed (run c s evs)) eqn:E; [|reflexivity].
-  destruct (not_before pre evs z Hc Hs E) as (L & HL' & _). congruence.
+  destruct (not_before pre evs z Hc Hs E) as (L & HL' & _). unfold s in *. congruence.
 Qed.
 
 (* while the origin is awaited (or a tunnel is open) nothing closes the client socket *)
@@ -305,8 +306,8 @@ Lemma upstream_never_cut pre evs :
   closed (run c s evs) = None.
 Proof.
   intros s Hc Hp Hs. apply no_limit_no_close; try assumption.
-  - rewrite Hp. reflexivity.
-  - rewrite Hp. assumption.
+  - fold s. rewrite Hp. reflexivity.
+  - fold s. rewrite Hp. assumption.
 Qed.
 
 End OneConnection.
@@ -318,7 +319,14 @@ Variable c : cfg.
 
 Lemma pre_go_wait_nonblocking p :
   existsb (blocks c) calls = false -> pre_go_wait calls c p = Some 0.
-Proof. intros H. unfold pre_go_wait. rewrite H. reflexivity. Qed.
+Proof.
+  intros H. unfold pre_go_wait. rewrite H.
+  assert (E : existsb (fun m => mem m io_methods || negb (mem m conn_methods)) calls = false).
+  { clear p. induction calls as [|m r IH]; cbn [existsb] in *; [reflexivity|].
+    apply orb_false_iff in H as [H1 H2]. unfold blocks in H1.
+    apply orb_false_iff in H1 as [H1 _]. rewrite H1. cbn. apply IH, H2. }
+  rewrite E. reflexivity.
+Qed.
 
 (* no call made on the connection before `go` can wait for the peer  ==>
    every connection is handed to its goroutine at the moment it arrives,
@@ -336,19 +344,25 @@ Qed.
 (* the converse shape, kept to show that the model can express the defect:
    one blocking call + one silent peer delays the next client by the whole header timeout *)
 Lemma serve_loop_blocks_witness L :
+  existsb (fun m => mem m io_methods || negb (mem m conn_methods)) calls = false ->
   existsb (blocks c) calls = true ->
   pos (if pp_timeout_closes_conn then c_pp c else 0) = Some L -> 0 <= L ->
   serve_loop calls c (Some 0) [mkpeer 0 None; mkpeer 0 (Some 0)] = [Some L; Some L].
 Proof.
-  intros Hb HL HL0. cbn [serve_loop]. unfold pre_go_wait. rewrite Hb. cbn [p_hdr_after p_arrive].
-  rewrite HL. cbn [Z.max Z.add]. rewrite Z.max_l by lia.
-  replace (Z.max 0 (Z.min 0 L)) with 0 by lia. rewrite Z.add_0_r. reflexivity.
+  intros Hio Hb HL HL0. cbn [serve_loop]. unfold pre_go_wait. rewrite Hio, Hb. cbn [p_hdr_after p_arrive].
+  rewrite HL.
+  replace (Z.max 0 0 + L) with L by lia.
+  replace (Z.max 0 (Z.min 0 L)) with 0 by lia.
+  replace (Z.max L 0 + 0) with L by lia. reflexivity.
 Qed.
 End AcceptLoop.
 
-Lemma blocks_of_mem c calls :
-  forallb (fun m => negb (mem m pp_blocking_methods)) calls = true -> existsb (blocks c) calls = false.
+Lemma blocks_of_never_waits c calls :
+  forallb call_never_waits calls = true -> existsb (blocks c) calls = false.
 Proof.
-  induction calls as [|m r IH]; cbn; [reflexivity|]. intros H. apply andb_true_iff in H as [H1 H2].
-  unfold blocks at 1. apply negb_true_iff in H1. rewrite H1, andb_false_r. cbn. apply IH, H2.
+  induction calls as [|m r IH]; cbn [forallb existsb]; [reflexivity|]. intros H.
+  apply andb_true_iff in H as [H1 H2]. unfold call_never_waits in H1.
+  apply andb_true_iff in H1 as [H1 H3]. apply andb_true_iff in H1 as [H1 H4].
+  apply negb_true_iff in H1, H3. unfold blocks at 1. rewrite H1, H3, H4, andb_false_r. cbn.
+  apply IH, H2.
 Qed.
